@@ -1,6 +1,19 @@
 import Lace.Props.C09
+import Lace.Props.C09IO
 #print axioms Lace.C09.debug_transparent
 #print axioms Lace.C09.iter_nonmut
 #print axioms Lace.C09.detached_eq_plain
 #print axioms Lace.C09.nextAction_nonmut
 #print axioms Lace.DbgProofs.runCommand_nonmut
+#print axioms Lace.C09IO.reader_consumes_exactly
+#print axioms Lace.C09IO.fetch_consumes_exactly
+#print axioms Lace.C09IO.fetch_rest_suffix
+#print axioms Lace.C09IO.quit_hands_over_stdin
+#print axioms Lace.C09IO.preparsed_agrees
+#print axioms Lace.C09IO.preparsed_agrees_argument
+#print axioms Lace.C09IO.debug_transparent_io
+#print axioms Lace.C09IO.transport_independent_io
+#print axioms Lace.C09IO.runLoop_sync
+#print axioms Lace.C09IO.runCommand_frame
+#print axioms Lace.C09IO.execute_setInp
+#print axioms Lace.C09IO.readFromLoop_tview
